@@ -207,7 +207,7 @@ func (e *C10) Run(c *core.Ctx, idx int) {
 	if len(sh) > 0 && r.Chance(1, 5) {
 		// fill bytes: any marker may be preceded by any number of 0xFF bytes
 		for k := r.Range(1, 3); k > 0; k-- {
-			sh[r.Intn(len(sh))].Fill = r.Pick(1, 1, 2, 3, 7)
+			sh[r.Intn(len(sh))].Fill = r.Pick(1, 1, 2, 3, 7, 61, 62, 63, 64, 65, 200, 5000) // (any number is legal, also more than a look-ahead window holds)
 		}
 	}
 	j := gen.BuildJPEG(r, sh, r.Range(64, 300))
